@@ -10,14 +10,19 @@
 (* the abstract AddTruncClause of Ops.tla.                                 *)
 (*                                                                         *)
 (* Knobs: HourDoesNotZeroMinutes (a seeded design fault), Week53Everywhere *)
-(* (the pre-2200682 constructor bound: week 53 accepted in every mode).    *)
+(* (the pre-2200682 constructor bound: week 53 accepted in every mode),    *)
+(* DayMoveKeepsHour (the algorithm before the repair of the last C20       *)
+(* finding: after walking to a later day the hour reached in the time      *)
+(* phase was kept although t names no hour, so the result was not the      *)
+(* earliest match).                                                        *)
 (***************************************************************************)
 EXTENDS Ops
-CONSTANTS HourDoesNotZeroMinutes, Week53Everywhere
+CONSTANTS HourDoesNotZeroMinutes, Week53Everywhere, DayMoveKeepsHour
 VARIABLES m, t, p0,     \* mode, truncated operand (record as in Ops.tla C20), full operand (zone 0, whole second)
           day, sod,     \* working position
+          later,        \* a day-designator loop has moved the position to a later day
           phase, steps
-vars == <<m, t, p0, day, sod, phase, steps>>
+vars == <<m, t, p0, day, sod, later, phase, steps>>
 
 \* effective targets as add_truncated computes them
 TgtM == IF t.mi >= 0 THEN t.mi ELSE IF t.hh >= 0 /\ ~HourDoesNotZeroMinutes THEN 0 ELSE -1
@@ -29,20 +34,24 @@ Adv(secs) == /\ day' = day + ((sod + secs) \div DAY) /\ sod' = (sod + secs) % DA
 
 Loop ==
   /\ phase # "done"
-  /\ CASE phase = "s"   -> IF TgtS >= 0 /\ sod % 60 # TgtS THEN Adv(1) /\ UNCHANGED phase
-                           ELSE phase' = NextPh(phase) /\ UNCHANGED <<day, sod>>
-       [] phase = "mi"  -> IF TgtM >= 0 /\ (sod % 3600) \div 60 # TgtM THEN Adv(60) /\ UNCHANGED phase
-                           ELSE phase' = NextPh(phase) /\ UNCHANGED <<day, sod>>
-       [] phase = "h"   -> IF t.hh >= 0 /\ sod \div 3600 # t.hh THEN Adv(3600) /\ UNCHANGED phase
-                           ELSE phase' = NextPh(phase) /\ UNCHANGED <<day, sod>>
-       [] phase = "dow" -> IF t.dow > 0 /\ Weekday(day) # t.dow THEN day' = day + 1 /\ UNCHANGED <<sod, phase>>
-                           ELSE phase' = NextPh(phase) /\ UNCHANGED <<day, sod>>
-       [] phase = "dom" -> IF t.dom > 0 /\ CalOf(m, day)[3] # t.dom THEN day' = day + 1 /\ UNCHANGED <<sod, phase>>
-                           ELSE phase' = NextPh(phase) /\ UNCHANGED <<day, sod>>
-       [] phase = "doy" -> IF t.doy > 0 /\ OrdOf(m, day)[2] # t.doy THEN day' = day + 1 /\ UNCHANGED <<sod, phase>>
-                           ELSE phase' = NextPh(phase) /\ UNCHANGED <<day, sod>>
-       [] OTHER         -> IF t.woy > 0 /\ WeekOf(m, day)[2] # t.woy THEN day' = day + 7 /\ UNCHANGED <<sod, phase>>
-                           ELSE phase' = NextPh(phase) /\ UNCHANGED <<day, sod>>
+  /\ CASE phase = "s"   -> IF TgtS >= 0 /\ sod % 60 # TgtS THEN Adv(1) /\ UNCHANGED <<phase, later>>
+                           ELSE phase' = NextPh(phase) /\ UNCHANGED <<day, sod, later>>
+       [] phase = "mi"  -> IF TgtM >= 0 /\ (sod % 3600) \div 60 # TgtM THEN Adv(60) /\ UNCHANGED <<phase, later>>
+                           ELSE phase' = NextPh(phase) /\ UNCHANGED <<day, sod, later>>
+       [] phase = "h"   -> IF t.hh >= 0 /\ sod \div 3600 # t.hh THEN Adv(3600) /\ UNCHANGED <<phase, later>>
+                           ELSE phase' = NextPh(phase) /\ UNCHANGED <<day, sod, later>>
+       [] phase = "dow" -> IF t.dow > 0 /\ Weekday(day) # t.dow THEN day' = day + 1 /\ later' = TRUE /\ UNCHANGED <<sod, phase>>
+                           ELSE phase' = NextPh(phase) /\ UNCHANGED <<day, sod, later>>
+       [] phase = "dom" -> IF t.dom > 0 /\ CalOf(m, day)[3] # t.dom THEN day' = day + 1 /\ later' = TRUE /\ UNCHANGED <<sod, phase>>
+                           ELSE phase' = NextPh(phase) /\ UNCHANGED <<day, sod, later>>
+       [] phase = "doy" -> IF t.doy > 0 /\ OrdOf(m, day)[2] # t.doy THEN day' = day + 1 /\ later' = TRUE /\ UNCHANGED <<sod, phase>>
+                           ELSE phase' = NextPh(phase) /\ UNCHANGED <<day, sod, later>>
+       [] OTHER         -> IF t.woy > 0 /\ WeekOf(m, day)[2] # t.woy THEN day' = day + 7 /\ later' = TRUE /\ UNCHANGED <<sod, phase>>
+                           \* leaving the last loop: on a later day the earliest time with the named minute / second is in hour 0
+                           \* (and minute 0 when only the second is named)
+                           ELSE /\ phase' = NextPh(phase) /\ UNCHANGED <<day, later>>
+                                /\ sod' = IF later /\ ~DayMoveKeepsHour /\ t.hh < 0 /\ (t.mi >= 0 \/ t.ss >= 0)
+                                          THEN (IF t.mi >= 0 THEN t.mi ELSE 0) * 60 + (sod % 60) ELSE sod
   /\ steps' = steps + 1
   /\ UNCHANGED <<m, t, p0>>
 Next == Loop
